@@ -18,19 +18,6 @@ def parseBlock (s : String) : Option Block :=
 def showBlock (b : Block) : String :=
   if b.isEmpty then "-" else ",".intercalate (b.map fun f => showBytes f.1 ++ ":" ++ showBytes f.2)
 
-/-- hyper-h2 `_initialize_content_length` + `_track_content_length` -/
-def h2ClOk (headResp : Bool) (b : Block) (bodyLen : Nat) (endOnTrailers : Bool := false) : Bool :=
-  let cls := valuesOf sCL b
-  if headResp then bodyLen = 0
-  else if !cls.all (fun v => !v.isEmpty && v.all isDigit) then false
-  else match cls.map Ref.parseDec with
-    | [] => true
-    | some n :: rest =>
-      -- the final comparison is made on the DATA frame that carries END_STREAM; a stream ended by trailers only
-      -- passes the running check "not more than announced"
-      rest.all (· == some n) && (bodyLen = 0 || (if endOnTrailers then decide (bodyLen ≤ n) else n = bodyLen))
-    | _ => false
-
 def natHexDigits : Nat → Nat → Bytes
   | 0, _ => []
   | f + 1, n =>
